@@ -57,6 +57,15 @@ func staticStore(env *numgen.Env) vm.StaticStore {
 type compileFn func(string) (*program.Program, error)
 
 func runImpl(text string, env *numgen.Env, compile compileFn) (res implResult) {
+	vars := map[string]string{}
+	for k, v := range env.Vars {
+		vars[k] = v
+	}
+	return runImplVars(text, env, compile, vars)
+}
+
+// runImplVars is runImpl with the variable map handed over as it is (the caller's own object).
+func runImplVars(text string, env *numgen.Env, compile compileFn, vars map[string]string) (res implResult) {
 	stage := "compile"
 	defer func() {
 		if p := recover(); p != nil {
@@ -74,10 +83,6 @@ func runImpl(text string, env *numgen.Env, compile compileFn) (res implResult) {
 	m.Printer = func(c chan machine.Value) {
 		for range c {
 		}
-	}
-	vars := map[string]string{}
-	for k, v := range env.Vars {
-		vars[k] = v
 	}
 	stage = "vars"
 	if err := m.SetVarsFromJSON(vars); err != nil {
